@@ -68,6 +68,15 @@ pub async fn make_target(root: &Path, backend: &str) -> Result<BackendTarget> {
     })
 }
 
+/// Close the sqlite connection of a target and wait until it is closed
+/// (the WAL is checkpointed and removed), so that the directory can be
+/// copied safely.
+pub async fn close_target(target: &BackendTarget) {
+    if let BackendTarget::Database(_, client) = target {
+        let _ = client.clone().close().await;
+    }
+}
+
 pub async fn reopen_target(root: &Path, backend: &str) -> Result<BackendTarget> {
     let paths = Paths::new_client(root);
     Ok(if backend == "db" {
